@@ -679,7 +679,10 @@ func (env *SpecEnv) call(n *ast.CallExpr) Val {
 		return vBool(sAnd(sEq(slcArr(a.T), slcArr(b.T)), sEq(slcOff(a.T), slcOff(b.T)), sEq(slcLen(a.T), slcLen(b.T))))
 	case "sameArray":
 		need(2)
-		// two nil slices (array 0) share no memory
+		return vBool(sEq(slcArr(arg(0).T), slcArr(arg(1).T)))
+	case "mayAlias":
+		// same backing array; two nil slices (array 0) share no memory
+		need(2)
 		return vBool(sAnd(sEq(slcArr(arg(0).T), slcArr(arg(1).T)), sNot(sEq(slcArr(arg(0).T), "0"))))
 	case "disjoint":
 		// disjoint(a, b): different arrays, or non-overlapping capacity ranges
